@@ -193,7 +193,7 @@ def run():
         account(chk, resd, "doors (OAuth login form + native router)", keyfn=doors_key)
         if not resd["mismatches"]:
             if not resd["replies"].get("oauth/refused") or not resd["replies"].get("basic/refused") or \
-               not any(k.startswith("oauth/upper=True") for k in resd["variants"]):
+               not any(k == "oauth/upper=true" for k in resd["variants"]):
                 raise vf.NoVerdict("doors replay too weak: %s %s" % (resd["replies"], resd["variants"]))
             # self-test of this binding: a perturbed expected reply must be noticed
             cd = [p for p in dpaths if any(s["call"]["reply"] == "refused" for s in p)]
